@@ -504,9 +504,12 @@ fn expr(cx: &Ctx, e: &Expr) -> R<String> {
             _ => return Err("unary op".into()),
         },
         Expr::Binary(b) => {
-            let l = expr(cx, &b.left)?;
-            let r = expr(cx, &b.right)?;
+            let mut l = expr(cx, &b.left)?;
+            let mut r = expr(cx, &b.right)?;
             let grp = is_group(cx, &b.left) || is_group(cx, &b.right);
+            // `CONST == x` is `x == CONST`: a constant-like left operand of `==` / `!=` (a literal, `T::one()`, `G::zero()`,
+            // a source constant) is moved to the right — the canonical spelling the model uses
+            if matches!(b.op, BinOp::Eq(_) | BinOp::Ne(_)) && const_like(&b.left) && !const_like(&b.right) { std::mem::swap(&mut l, &mut r); }
             match b.op {
                 BinOp::Mul(_) if grp => format!("(Sm9.G.mul {} {})", paren(&l), paren(&r)),
                 BinOp::Eq(_) if grp => format!("(Sm9.G.eq {} {})", paren(&l), paren(&r)),
@@ -611,6 +614,19 @@ fn expr(cx: &Ctx, e: &Expr) -> R<String> {
         }
         other => return Err(format!("unsupported expr: {}", quote::quote!(#other).to_string().chars().take(80).collect::<String>())),
     })
+}
+
+fn const_like(e: &Expr) -> bool {
+    match e {
+        Expr::Lit(_) => true,
+        Expr::Paren(p) => const_like(&p.expr),
+        Expr::Group(g) => const_like(&g.expr),
+        Expr::Reference(r) => const_like(&r.expr),
+        Expr::Unary(u) => matches!(u.op, UnOp::Neg(_) | UnOp::Deref(_)) && const_like(&u.expr),
+        Expr::Call(c) => c.args.is_empty() && matches!(&*c.func, Expr::Path(_)),
+        Expr::Path(p) => { let s = path_str(&p.path); !s.is_empty() && s.chars().all(|ch| ch.is_ascii_uppercase() || ch.is_ascii_digit() || ch == '_') }
+        _ => false,
+    }
 }
 
 fn call(cx: &Ctx, c: &ExprCall) -> R<String> {
@@ -826,6 +842,8 @@ fn pat_str(p: &Pat) -> R<String> {
         Pat::Tuple(t) => { let v: R<Vec<String>> = t.elems.iter().map(pat_str).collect(); format!("({})", v?.join(", ")) }
         Pat::Wild(_) => "_".into(),
         Pat::Type(t) => pat_str(&t.pat)?,
+        Pat::Reference(r) => pat_str(&r.pat)?,          // `for &d in xs.iter()`: references are transparent (value semantics)
+        Pat::Paren(p) => pat_str(&p.pat)?,
         _ => return Err("pattern".into()),
     })
 }
